@@ -736,26 +736,33 @@ BUFR_Template *bufr_load_template( const char *filename, BUFR_Tables *mtbls )
                      code.values[vpos] = bufr_create_value( vtype );
                      bufr_value_set_string( code.values[vpos], tok, vlen );
                      break;
+/*
+ * a new value is missing until it is set: what "MSNG" stands for
+ */
                   case VALTYPE_INT64 :
-                     ival64 = atol(tok);
                      code.values[vpos] = bufr_create_value( vtype );
-                     bufr_value_set_int64( code.values[vpos], ival64 );
+                     if (strcmp( tok, "MSNG" ) != 0)
+                        {
+                        ival64 = atol(tok);
+                        bufr_value_set_int64( code.values[vpos], ival64 );
+                        }
                      break;
                   case VALTYPE_INT32  :
-                     ival32 = atoi(tok);
                      code.values[vpos] = bufr_create_value( vtype );
-                     bufr_value_set_int32( code.values[vpos], ival32 );
+                     if (strcmp( tok, "MSNG" ) != 0)
+                        {
+                        ival32 = atoi(tok);
+                        bufr_value_set_int32( code.values[vpos], ival32 );
+                        }
                      break;
                   case VALTYPE_FLT64  :
                   case VALTYPE_FLT32  :
+                     code.values[vpos] = bufr_create_value( vtype );
                      if (strcmp( tok, "MSNG" ) != 0)
                         {
                         fval = strtof( tok, NULL );
                         if (!bufr_is_missing_float( fval ))
-                           {
-                           code.values[vpos] = bufr_create_value( vtype );
                            bufr_value_set_float( code.values[vpos], fval );
-                           }
                         }
                      break;
                   default :
